@@ -459,6 +459,14 @@ def _main(run, rng, so_path):
                 grid_budget -= 1
             terms.append("CHv %s %s %s %s" % (cql(ref), cpts(pts), cbool(grid), cql(obs)))
             cases.append(case)
+            if d <= 2:
+                # the transcribed one-/two-objective code paths, each against its own implementation
+                byname = {}
+                for be in backends:
+                    r = None if res is None else res.get(be)
+                    byname[be] = Fraction(r[1]) if (r is not None and r[0] == "ok") else None
+                terms.append("CLow %s %s %s %s" % (cql(ref), cpts(pts), copt(byname.get("c"), cq), copt(byname.get("py"), cq)))
+                cases.append(case)
             if not j["stress"]:
                 run.note_case(case, nboxes >= 2, sample=case if len(cases) % 211 == 1 else None)
         else:
